@@ -440,6 +440,71 @@ fn huge_oracle(c: &HugeCase, st: &mut Stats) -> Result<(), String> {
   Ok(())
 }
 
+
+#[derive(Clone, Debug, Serialize, Deserialize)]
+pub struct PtsCase {
+  pub t: u32,
+  pub k: u8,
+  /// x coordinates as decimal integers (made distinct), incl. 0, 1, p-1 and other boundary values
+  pub xs: Vec<String>,
+  pub seed: u64,
+  pub sel: SelSpec,
+}
+
+fn pts_strat(_t: Tier) -> BoxedStrategy<PtsCase> {
+  (1u32..10, 0u8..4, vec(prop_oneof![2 => Just("0".to_string()), 1 => Just("1".to_string()), 4 => element()], 1..14), any::<u64>(), sel_spec())
+    .prop_map(|(t, k, xs, seed, sel)| PtsCase { t, k, xs, seed, sel })
+    .boxed()
+}
+
+/// recover() on hand-built points (not dealt): equals bigint Lagrange at 0 through the
+/// first t distinct points of the collection, whatever the points are
+fn pts_oracle(c: &PtsCase, st: &mut Stats) -> Result<(), String> {
+  let mut seen = std::collections::BTreeSet::new();
+  let xs: Vec<BigUint> = c.xs.iter().map(|s| s.parse::<BigUint>().unwrap_or_default() % p()).filter(|x| seen.insert(x.to_bytes_le())).collect();
+  let t = (c.t as usize).min(xs.len()).max(1);
+  let k = c.k as usize;
+  let ys: Vec<Vec<BigUint>> = xs
+    .iter()
+    .enumerate()
+    .map(|(i, _)| (0..k).map(|j| big_from_le(&expand(c.seed ^ ((i as u64) << 8) ^ j as u64, 24)) % p()).collect())
+    .collect();
+  let shares: Vec<Share> = xs
+    .iter()
+    .zip(ys.iter())
+    .map(|(x, y)| Share { x: big_to_fe(x).unwrap(), y: y.iter().map(|v| big_to_fe(v).unwrap()).collect() })
+    .collect();
+  let sel = c.sel.build(shares.len(), t);
+  let chosen: Vec<Share> = sel.iter().map(|i| shares[*i].clone()).collect();
+  st.evals(1);
+  let got = Sharks(t as u32).recover(&chosen).map_err(|e| format!("recover refused {} distinct points under threshold {t}: {e}", sel.iter().collect::<std::collections::BTreeSet<_>>().len()))?;
+  // model: first t distinct of the selection
+  let mut seen = std::collections::BTreeSet::new();
+  let first: Vec<usize> = sel.iter().cloned().filter(|i| seen.insert(*i)).take(t).collect();
+  let mut want = Vec::new();
+  for j in 0..k {
+    let pts: Vec<(BigUint, BigUint)> = first.iter().map(|i| (xs[*i].clone(), ys[*i][j].clone())).collect();
+    want.extend_from_slice(&le24(&lagrange_at_zero(&pts)));
+  }
+  if got != want {
+    return Err(format!(
+      "recover on hand-built points disagrees with Lagrange interpolation at 0: got {} want {} (t={t}, x = {:?}, selection {:?})",
+      hx(&got),
+      hx(&want),
+      first.iter().map(|i| xs[*i].to_string()).collect::<Vec<_>>(),
+      sel
+    ));
+  }
+  let has_zero = first.iter().any(|i| xs[*i].is_zero());
+  if has_zero {
+    st.class("point-at-x=0-among-first-t");
+  }
+  if t >= 2 || has_zero {
+    st.nontrivial(&(t, k, &c.xs, c.seed, &sel));
+  }
+  Ok(())
+}
+
 pub fn property() -> Property {
   Property {
     id: "C06",
@@ -453,6 +518,7 @@ pub fn property() -> Property {
       prop_sub("model_agreement", 3000, 60000, |t| strat_with(t.pick(64, 64), false), oracle),
       prop_sub("model_agreement_large_t", 16, 400, |_| strat_with(64, true), oracle),
       prop_sub("out_of_range_secret", 2000, 40000, oor_strat, oor_oracle),
+      prop_sub("recover_arbitrary_points", 6000, 120000, pts_strat, pts_oracle),
       enum_sub(
         "degree_at_huge_thresholds",
         |t| 2 * huge_thresholds(t).len() as u64,
